@@ -169,8 +169,8 @@ struct QuantSys {
   void add_slot_merge_ops(int s, int t) { Op o; o.kind = 'M'; o.a = s; o.b = t; o.name = "M" + str(s) + str(t); ops.push_back(o); o.kind = 'R'; o.name = "R" + str(s) + str(t); ops.push_back(o); }
   // a long run of further updates under a fixed coin schedule (one macro step): states that only show many updates after a merge
   void add_long_op(int count, int fill) { Op o; o.kind = 'L'; o.a = fill; o.b = count; o.name = "L" + str(count) + "c" + str(fill); ops.push_back(o); }
-  void add_menu_ops() {
-    for (size_t j = 0; j < menu.size(); ++j) for (int f = 0; f < 3; ++f) { Op o; o.kind = 'O'; o.a = (int)j; o.b = f; o.name = "O" + menu[j].name + (f == 0 ? "l" : f == 1 ? "r" : "x"); ops.push_back(o); }
+  void add_menu_ops(int forms = 7) {   // bit f: 0 lvalue, 1 rvalue, 2 reversed (the operand absorbs the slot)
+    for (size_t j = 0; j < menu.size(); ++j) for (int f = 0; f < 3; ++f) { if (!(forms & (1 << f))) continue; Op o; o.kind = 'O'; o.a = (int)j; o.b = f; o.name = "O" + menu[j].name + (f == 0 ? "l" : f == 1 ? "r" : "x"); ops.push_back(o); }
   }
 
   std::string name() const { return nm; }
